@@ -83,6 +83,12 @@ def programs():
     P['abandon[reconnect+close inside socket.close()]||send_text'] = dict(z=None, wire_conn=1, on_socket_close=[['reconnect'], ['close', 1000, 'bye']],
                                                                         threads=[[['abandon']], [['send_text', 'T1-0']]])
     P['abandon||reconnect+close+send'] = dict(z=None, wire_conn=1, threads=[[['abandon']], [['reconnect'], ['close', 1000, 'bye'], ['send_binary', b'T1-2']]])
+    # the same situations with a thread switch possible between any two bytecode instructions of the functions that
+    # move the closing / closed flags (the interpreter switches threads between instructions, not between lines)
+    ops = ('_on_close', 'on_disconnect', '_close', 'write', 'close')
+    for name in ('close||send_text', 'pre-closed:loop-close-reply||send_text', 'loop-server-close||send_text', 'loop-server-close||close',
+                 'close-then-abandon||send_text'):
+        P[name + '@bytecode'] = dict(P[name], opcodes=ops)
     return P
 
 
